@@ -408,16 +408,22 @@ func (s *botSess) full() string {
 
 // ---- ops
 
+// botLive: the running bot game of each op session.  It is kept here and not only in s.slots because the
+// shared `case` op simply replaces s.slots: a game dropped that way would leave its goroutines parked
+// forever, and every later goroutine dump (the quiescence test) would have to wade through them.
+var botLive sync.Map // *Session -> *botSess
+
 func botOf(s *Session) *botSess {
 	b, _ := s.slots["bot"].(*botSess)
 	return b
 }
 
 func botReset(s *Session) {
-	if b := botOf(s); b != nil {
-		b.shutdown()
-		delete(s.slots, "bot")
+	if v, ok := botLive.Load(s); ok {
+		v.(*botSess).shutdown()
+		botLive.Delete(s)
 	}
+	delete(s.slots, "bot")
 }
 
 // auxMove computes what handleMove will get from ParseServer for this line ("-" when it does not ask).
@@ -448,6 +454,7 @@ func init() {
 		}
 		b := botStart(a[0], atoi(a[1]), atoi(a[2]), a[3])
 		s.slots["bot"] = b
+		botLive.Store(s, b)
 		return b.summary("new")
 	}
 	opTable["state"] = func(s *Session, a []string) string {
